@@ -337,7 +337,9 @@ int EGLPNUM_TYPENAME_ILLread_lp_state_has_colon (
 	char *pp;
 
 	EGLPNUM_TYPENAME_ILLread_lp_state_skip_blanks (state, 0);
-	for (pp = state->p; *pp != '\n'; pp++)
+	/* the line ends at its newline, or earlier at the terminator put where a
+	 * comment started or where the file ended without a newline */
+	for (pp = state->p; *pp != '\n' && *pp != '\0'; pp++)
 	{
 		if (*pp == ':')
 		{
